@@ -331,4 +331,9 @@ theorem source_hStringConfigRequired : GeneratedSrc.hStringConfigRequired = Expe
 theorem source_hFloat64Config : GeneratedSrc.hFloat64Config = ExpectedSrc.hFloat64Config := by rfl
 theorem source_hFloat64ConfigRequired : GeneratedSrc.hFloat64ConfigRequired = ExpectedSrc.hFloat64ConfigRequired := by rfl
 
+
+/-! ### functions the model's assumptions rest on (construction, wiring, surrounding calls) are unchanged -/
+theorem source_kcSetup : GeneratedSrc.kcSetup = ExpectedSrc.kcSetup := by rfl
+theorem source_kpSetup : GeneratedSrc.kpSetup = ExpectedSrc.kpSetup := by rfl
+
 end Firebolt.C20
